@@ -22,6 +22,8 @@ import (
 	"github.com/trustbloc/sidetree-go/pkg/document"
 	"github.com/trustbloc/sidetree-go/pkg/jws"
 	"github.com/trustbloc/sidetree-go/pkg/jwsutil"
+	"github.com/trustbloc/sidetree-go/pkg/util/ecsigner"
+	"github.com/trustbloc/sidetree-go/pkg/util/edsigner"
 	"github.com/trustbloc/sidetree-go/pkg/util/pubkey"
 	"github.com/trustbloc/sidetree-go/pkg/util/signutil"
 	"github.com/trustbloc/sidetree-go/pkg/versions/1_0/doctransformer/didtransformer"
@@ -635,6 +637,34 @@ func jwsReplay(args []string) {
 						if _, derr := jwsutil.VerifyJWS(bad, key.JWK, jwsutil.WithJWSDetachedPayload(payload)); derr == nil {
 							fail("verify-verdict", "malformed compact form accepted with a detached payload", map[string]interface{}{"verifies": false},
 								map[string]interface{}{"verifies": true}, bad)
+							return
+						}
+					}
+				}
+
+				// a key id with characters that HTML-minded JSON writers escape, and a payload of 20 kB and of 1 MB: what the library's
+				// signer signs, the library verifies
+				if pi == 0 {
+					var big1 libSigner
+
+					kid := "did:example:123?service=files&relativeRef=<a>#key-1"
+
+					switch pk := key.Priv.(type) {
+					case ed25519.PrivateKey:
+						big1 = edsigner.New(pk, key.Alg, kid)
+					case *ecdsa.PrivateKey:
+						big1 = ecsigner.New(pk, key.Alg, kid)
+					}
+
+					for _, pl := range [][]byte{payload, bytes.Repeat([]byte("0123456789abcdef"), 1280), bytes.Repeat([]byte{0xfb, 0xff}, 1<<19)} {
+						s1, e1 := signutil.SignPayload(pl, big1)
+						if e1 != nil {
+							fail("sign-error", e1.Error(), nil, nil, nil)
+							return
+						}
+
+						if back, verr := jwsutil.VerifyJWS(s1, key.JWK); verr != nil || !bytes.Equal(back.Payload, pl) {
+							fail("matching-key-does-not-verify", fmt.Sprintf("key id %q, payload of %d bytes: %v", kid, len(pl), verr), "verifies", nil, s1[:200])
 							return
 						}
 					}
